@@ -18,7 +18,7 @@ ASSUMPTIONS = ["str() of names and of custom function results is computed by Pyt
                "id() of live node objects is unique (UniqueDotExporter / MermaidExporter number nodes by id())"]
 TRUSTED = ["to_dotfile / to_file output is compared with the iterated lines by the harness (file I/O is CPython's)"]
 NAMEPOOL = ["a", "b", "a", 'q"x', "back\\slash", "sp ace", "ä中", '\\"', "", "x\\", 'a"b\\c"', "n\nl",
-            " a", "a ", " ", "\ta", "a\n"]
+            " a", "a ", " ", "\ta", "a\n", "50%", "%s", "a %d b", "100%%"]
 COQKIND = {"dot": "KDot", "legacy": "KDot", "unique": "KUnique", "mermaid": "KMermaid", "mermaid_default": "KMermaidDefault"}
 
 
